@@ -6,7 +6,8 @@ ROUND = int(sys.argv[2]) if len(sys.argv) > 2 else 1
 p = next(json.loads(l) for l in open("/verif/properties.jsonl") if json.loads(l)["id"] == pid)
 wt = "/tmp/seed%s-%s" % ("" if ROUND == 1 else str(ROUND), pid.lower())
 out = wt + "-out"
-NCH, NCH_N = ("THREE", 3) if ROUND == 1 else ("TWO", 2)
+NCH, NCH_N = ("THREE", 3) if ROUND in (1, 4) else ("TWO", 2)
+
 EXTRA = "" if ROUND == 1 else """
 IMPORTANT - this is a second, harder round. An earlier round already planted plain local slips (off-by-one, flipped comparison, wrong tie-break, dropped special case, swapped arguments in one function) and the project's verification caught those at once with randomised single-call checks. This time every change must be of a kind that a check calling the changed function ONCE on a fresh object with a random input would be unlikely to notice. Prefer:
   - state that survives between calls: a cache / memo / module-level global / 'last used' slot that goes stale, a lazily computed attribute that is not invalidated, an input object (list, numpy array, Obs, coordinate, track) that is mutated or aliased so that a LATER call or a second object is affected;
@@ -18,6 +19,13 @@ Do not repeat the plain local slips of the first round.
 if ROUND >= 3:
     EXTRA += """
 This is in fact the THIRD round. The second round planted (and the verification now catches): stale caches/memos keyed by object identity or by an incomplete key, class-level flags shared between instances, feature-table dictionaries aliased between a derived track and its source, results not reset when the output feature already exists, callers' lists / numpy arrays / matrices mutated in place, integer dtypes inferred by numpy from int inputs (truncation, wrap-around), stale state across repeated calls on the same Track / Network / index / kernel / matrix object (also with in-place edits in between), order of aggregate operators, per-track feature layouts. Find something DIFFERENT in kind: e.g. an interaction with another public feature of the library that is not named in the property but legitimately precedes the call in real programs (coordinate-system conversions, time-zone or format settings, units, track ids, copy()/deepcopy semantics, iteration protocols, pickling, equality/hash of objects used as dict keys), numerical regimes the property covers but generators seldom hit (very large or very small magnitudes, values straddling a threshold by one ulp, negative zero, subnormal steps, huge counts), error paths that swallow an exception and return a plausible value, or defaults that change meaning (None vs 0 vs missing argument, positional vs keyword)."""
+if ROUND == 4:
+    EXTRA = """
+Make the three changes of three different KINDS, one each:
+  change 1 - a plain local slip (off-by-one, flipped or non-strict comparison, wrong tie-break, dropped special case, swapped arguments, wrong index, early exit) that needs an unusual but legal input to show (ties, duplicates, zeros, boundary values, particular sizes or orders);
+  change 2 - state that survives between calls or objects: a cache / memo / module- or class-level slot that goes stale, a lazily computed attribute that is not invalidated, an existing result that is not reset, an input object (list, numpy array, Obs, coordinate, track, network) that is mutated or aliased so that a LATER call or a second object is affected, a dependence on the order in which public entry points are called;
+  change 3 - something that depends on a neighbouring public feature or an input class that ordinary tests hold constant: the coordinate class (ENU / geographic / ECEF), time-zone labels, numeric types (Python int vs float vs numpy scalars and dtypes), magnitudes (very small / very large values, values within a tolerance of each other), sizes (empty, 1, 2, >= 1000), falsy parameter values (0, 0.0, None, empty), names and identifiers with unusual characters, objects that are equal but not identical, operators spelled in their augmented or reflected form.
+"""
 print(f"""You are testing how good a project's verification is by planting realistic bugs. The project is the pure-Python GPS trajectory library tracklib (git repository at /repo). Work ONLY in your own scratch git worktree: create it with
   git -C /repo worktree add --detach {wt} HEAD
 and make all edits under {wt}. Never edit, commit, checkout or stash anything in /repo itself (and never run `git stash` at all, not even inside your worktree: the stash is shared with /repo - undo with `git checkout -- .` or `git apply -R`), and do not read or touch anything under /verif (you must work independently of it). Python is /venv/bin/python (pytest available); there is no network.
